@@ -23,6 +23,8 @@ const (
 	KindFundAll      = "fund-everything-low-defrag-threshold"
 	KindSplitV1Pool  = "split-with-unconfirmed-v1-output"
 	KindCrossVersion = "fund-with-unconfirmed-output-of-other-version"
+	// the wallet's index lags the chain manager by 1..8 blocks while it funds
+	KindLagging = "lagging-wallet"
 )
 
 // A Config fully determines a history up to scheduling.
@@ -395,7 +397,17 @@ func (s *session) mine(rc *Rec, toWallet bool) error {
 	if toWallet {
 		addr = s.lab.Addr
 	}
-	_, err := s.lab.Mine(rc, addr)
+	_, err := s.lab.Mine(rc, addr, true)
+	return err
+}
+
+// minePending mines a block the wallet store is not told about yet.
+func (s *session) minePending(rc *Rec, toWallet bool) error {
+	addr := types.VoidAddress
+	if toWallet {
+		addr = s.lab.Addr
+	}
+	_, err := s.lab.Mine(rc, addr, false)
 	return err
 }
 
@@ -508,6 +520,8 @@ func Run(cfg Config, rngFor RNGFor) (*History, error) {
 		err = s.runSplitV1Pool()
 	case KindCrossVersion:
 		err = s.runCrossVersion()
+	case KindLagging:
+		err = s.runLagging()
 	default:
 		err = errors.New("unknown history kind " + cfg.Kind)
 	}
@@ -523,9 +537,12 @@ func (s *session) runConcurrent() error {
 			thresholds[i] = int64(s.rng.IntN(total + 1))
 		}
 		toWallet := make([]bool, nblocks)
+		pending := make([]bool, nblocks) // block is not delivered to the wallet store right away
 		for i := range toWallet {
 			toWallet[i] = s.rng.IntN(3) == 0
+			pending[i] = s.rng.IntN(3) == 0
 		}
+		catchUp := int64(s.rng.IntN(total + 1))
 		var done atomic.Int64
 		var finished atomic.Bool
 		var minerErr error
@@ -553,9 +570,23 @@ func (s *session) runConcurrent() error {
 				for done.Load() < t && !finished.Load() {
 					time.Sleep(20 * time.Microsecond)
 				}
-				if err := s.mine(s.miner, toWallet[i]); err != nil {
+				var err error
+				if pending[i] {
+					err = s.minePending(s.miner, toWallet[i])
+				} else {
+					err = s.mine(s.miner, toWallet[i]) // also delivers what was pending
+				}
+				if err != nil {
 					minerErr = err
 					return
+				}
+			}
+			if s.lab.Pending() > 0 {
+				for done.Load() < catchUp && !finished.Load() {
+					time.Sleep(20 * time.Microsecond)
+				}
+				if _, err := s.lab.Deliver(s.miner, 0); err != nil {
+					minerErr = err
 				}
 			}
 		}()
@@ -820,4 +851,148 @@ func (s *session) runCrossVersion() error {
 	}
 	w.drop(o2)
 	return s.barrier("after-submit")
+}
+
+// bulk submits a wallet-funded transaction with as many (1 H, burnt) outputs
+// as the element accumulator has leaves, so that the block confirming it
+// doubles the accumulator and the Merkle proof of EVERY older element changes.
+func (s *session) bulk(w *worker) {
+	l := s.lab
+	n := l.CM.TipState().Elements.NumLeaves
+	if n > 600 {
+		n = 600
+	}
+	v2 := l.V2OK()
+	if !v2 && !l.V1OK() {
+		return
+	}
+	outs := make([]types.SiacoinOutput, n)
+	for i := range outs {
+		outs[i] = types.SiacoinOutput{Address: types.VoidAddress, Value: hasting}
+	}
+	amount := types.NewCurrency64(n)
+	o := &Owned{H: l.NewHandle(), V2: v2}
+	var ev *Event
+	if v2 {
+		o.T2 = []types.V2Transaction{{SiacoinOutputs: outs}}
+		o.Sign2 = [][]int{nil}
+		ev = l.Fund2(w.rec, o, amount, false, "")
+	} else {
+		o.T1 = types.Transaction{SiacoinOutputs: outs}
+		ev = l.Fund1(w.rec, o, amount, false, "")
+	}
+	if !ev.OK || len(ev.Sel) == 0 {
+		return
+	}
+	w.owned = append(w.owned, o)
+	s.submit(w, o)
+}
+
+// lagStep issues one operation biased towards "fund, sign, submit with the
+// returned basis right away", which is what the lagging dimension is about.
+func (s *session) lagStep(w *worker) {
+	rng, l := w.rng, s.lab
+	switch k := rng.IntN(11); {
+	case k == 10: // split (see below)
+		n := 2 + rng.IntN(4)
+		_, b := l.Balance(w.rec)
+		l.Split(w.rec, n, b.Spendable.Div64(uint64(4*(n+1))).Add(hasting))
+	case k < 4: // fund and submit
+		v2 := s.pickVersion(rng)
+		amount := s.pickAmount(w)
+		if amount.IsZero() {
+			amount = typicalValue(rng)
+		}
+		o := s.newTxn(rng, v2, amount)
+		var ev *Event
+		if v2 {
+			ev = l.Fund2(w.rec, o, amount, rng.IntN(4) == 0, "")
+		} else {
+			ev = l.Fund1(w.rec, o, amount, rng.IntN(4) == 0, "")
+		}
+		if ev.OK && len(ev.Sel) > 0 {
+			w.owned = append(w.owned, o)
+			if s.canSubmit(o) {
+				s.submit(w, o)
+			} else {
+				l.Release(w.rec, o)
+				w.drop(o)
+			}
+		}
+	case k < 6: // redistribute and submit
+		n := []int{1, 2, 3, 5, 12}[rng.IntN(5)]
+		_, b := l.Balance(w.rec)
+		amount := b.Spendable.Div64(uint64(2 * n * (1 + rng.IntN(3)))).Add(hasting)
+		fee := []types.Currency{types.ZeroCurrency, hasting, pow10(19)}[rng.IntN(3)]
+		if _, o := l.Redistribute(w.rec, n, amount, fee); o != nil {
+			w.owned = append(w.owned, o)
+			if s.canSubmit(o) {
+				s.submit(w, o)
+			} else {
+				l.Release(w.rec, o)
+				w.drop(o)
+			}
+		}
+	case k < 7: // split (broadcasts itself)
+		n := 2 + rng.IntN(4)
+		_, b := l.Balance(w.rec)
+		l.Split(w.rec, n, b.Spendable.Div64(uint64(2*(n+1)*(1+rng.IntN(4)))).Add(hasting))
+	default:
+		s.step(w)
+	}
+}
+
+// runLagging: the harness decides when chain updates reach the wallet. Blocks
+// are connected to the chain manager (confirming pooled transactions that
+// spend and create wallet outputs, among them one that doubles the
+// accumulator) but stay pending for the wallet store; funding calls of every
+// kind are made, signed and submitted with the returned basis while 1..8
+// blocks are pending; the pending blocks are delivered in PRNG-sized portions
+// with more calls in between; once the wallet has caught up, the barrier
+// oracles (agreement, probes) run.
+func (s *session) runLagging() error {
+	l := s.lab
+	w := s.workers[0]
+	for round := 0; round < s.cfg.Phases; round++ {
+		// synced: put transactions into the pool for the pending blocks to confirm
+		for i := 0; i < 3; i++ {
+			s.lagStep(w)
+		}
+		if round == 0 || s.rng.IntN(3) == 0 {
+			s.bulk(w)
+		}
+		for ops := s.cfg.OpsEach; ops > 0; {
+			// connect blocks the wallet is not told about (at most 8 pending)
+			for n := 1 + s.rng.IntN(4); n > 0 && l.Pending() < 8; n-- {
+				if err := s.minePending(s.main, s.rng.IntN(3) == 0); err != nil {
+					return err
+				}
+			}
+			for n := 1 + s.rng.IntN(4); n > 0 && ops > 0; n-- {
+				s.lagStep(w)
+				ops--
+			}
+			// deliver some of the pending blocks (possibly none, possibly all)
+			if k := s.rng.IntN(l.Pending() + 1); k > 0 {
+				if _, err := l.Deliver(s.main, k); err != nil {
+					return err
+				}
+			}
+		}
+		if _, err := l.Deliver(s.main, 0); err != nil {
+			return err
+		}
+		if err := s.barrier("after-catch-up"); err != nil {
+			return err
+		}
+		if s.rng.IntN(4) == 0 {
+			if err := s.restart(); err != nil {
+				return err
+			}
+			if err := s.barrier("after-restart"); err != nil {
+				return err
+			}
+		}
+	}
+	return nil
 }
